@@ -14,7 +14,7 @@ import base  # noqa: E402
 import dnslib  # noqa: E402
 
 CONF = """---
-dns-listeners: ['127.0.0.53:53']
+dns-listeners: ['127.0.0.53:53', '127.0.0.54:53', '127.0.0.55:5353']
 acls:
   - match-subnets: ['127.0.0.0/24']
     apply-access: ['dns-recursion']
@@ -27,8 +27,15 @@ REFUSED = 5
 SERVER = ("127.0.0.53", 53)
 
 
-def flood(src_ip, n, duration, cookie=None, qprefix="f"):
-    """Serial flood from one source address; returns list of (t, len, rcode) for responses."""
+SERVERS = [("127.0.0.53", 53), ("127.0.0.54", 53), ("127.0.0.55", 5353)]
+
+
+def flood(src_ip, n, duration, cookie=None, qprefix="f", servers=None, long_names=False):
+    """Serial flood from one source address, spread over the given listener addresses (the bound is per source, whichever
+    of the server's addresses it talks to); returns list of (t, len, rcode) for responses."""
+    servers = servers or [SERVER]
+    # long names make each REFUSED (which echoes the question) some 270 octets: 1000-token buckets then pay for three
+    pad = ("x" * 60 + ".") * 3 if long_names else ""
     s = socket.socket(socket.AF_INET, socket.SOCK_DGRAM)
     s.bind((src_ip, 0))
     s.setblocking(False)
@@ -40,9 +47,9 @@ def flood(src_ip, n, duration, cookie=None, qprefix="f"):
         opts = b""
         if cookie:
             opts = struct.pack(">HH", 10, len(cookie)) + cookie
-        q = dnslib.build_query(i & 0xFFFF, "%s%d.refused.test" % (qprefix, i), edns=1232, options=opts)
+        q = dnslib.build_query(i & 0xFFFF, "%s%d.%srefused.test" % (qprefix, i, pad), edns=1232, options=opts)
         try:
-            s.sendto(q, SERVER)
+            s.sendto(q, servers[i % len(servers)])
             sent.append((time.monotonic(), len(q)))
         except OSError:
             pass
@@ -82,7 +89,7 @@ def main():
     thorough = args["tier"] == "thorough"
     leg = base.Leg(
         "c16-refused-rate-e2e", "C16",
-        "real erbium-dns with an ACL that refuses 127.0.9.0/24: serial floods of UDP queries from refused sources (with and without "
+        "real erbium-dns (three UDP listeners) with an ACL that refuses 127.0.9.0/24: serial floods of UDP queries from refused sources to one listener and spread over all three (with and without "
         "cookies), every REFUSED datagram received is logged with time and size; every window of the log is checked against "
         "2B + 2R*(dt+1) octets (two hash buckets per source; B, R read from the code's constants through the harness); fresh source "
         "addresses that were silent so far must receive REFUSED; (thorough) the flooded source, silent for B/R seconds, must hear REFUSED again; a bare client cookie exempts nobody; a server cookie obtained over TCP exempts its owner and nobody else; "
@@ -139,6 +146,9 @@ def main():
         n1 = 1500 if thorough else 500
         sent, got, _ = flood("127.0.9.1", n1, 20.0 if thorough else 8.0)
         ref1 = check_windows("flood-no-cookie", got, "127.0.9.1")
+        # the same from another source, spread over all three listener sockets of the server
+        sent, got, _ = flood("127.0.9.3", n1, 20.0 if thorough else 8.0, qprefix="m", servers=SERVERS, long_names=True)
+        check_windows("flood-over-three-listeners", got, "127.0.9.3")
         leg.count("flood_queries", len(sent))
         flood_end = time.monotonic()
         # a client cookie alone (no server part) was never issued by anybody: not exempt
